@@ -40,6 +40,29 @@ Theorem C08_best_is_argmin_any_schedule : forall T mts get_setting run sm pre sc
 Proof. exact par_inv. Qed.
 Print Assumptions C08_best_is_argmin_any_schedule.
 
+(* the selection rule in closed form: argmin_first is the first position holding the strictly
+   smallest score below +inf (NaN never wins, None iff nothing scored) ... *)
+Theorem C08_argmin_first_meaning : forall l,
+  match argmin_first l with
+  | Some i => exists x, nth_error l i = Some x /\ flt x PInf = true /\
+                (forall y, In y l -> flt y x = false) /\
+                (forall j y, j < i -> nth_error l j = Some y -> flt x y = true \/ y = NaN)
+  | None => forall y, In y l -> flt y PInf = false
+  end.
+Proof. exact argmin_first_spec. Qed.
+Print Assumptions C08_argmin_first_meaning.
+
+(* ... and the optimizer's winner is the entry reported at that position of opt.scores
+   (the harness evaluates argmin_first on every recorded score list) *)
+Theorem C08_best_sits_at_argmin_first : forall T tr st, inv T tr st ->
+  match argmin_first (h_scores st), h_best st with
+  | Some i, Some (b, s) => exists id, nth_error tr i = Some (id, s, b)
+  | None, None => True
+  | _, _ => False
+  end.
+Proof. exact inv_best_position. Qed.
+Print Assumptions C08_best_sits_at_argmin_first.
+
 (* ---------------- repeats_bounded (+ pairing, serial) ---------------- *)
 Theorem C08_repeats_bounded_serial : forall T mts get_setting run sm n k step st0 status st trace k',
   serial T mts get_setting run sm n k step st0 [] = (status, st, trace, k') ->
